@@ -56,6 +56,10 @@ Next == (Pop \/ NextCb \/ EndStep \/ RunDry \/ StepDry \/ Uncaught \/ ProcStep \
 Spec == Init /\ [][Next]_kvars
 
 Done == TopCanAct /\ run.p = 0 /\ top.n >= 2 /\ (top.n = MaxPlan \/ agenda = {})
+\* every run()/step() call returns (or raises): with finitely many operations the kernel cannot spin or stall
+LiveSpec == Spec /\ WF_kvars(Next)
+Returns == [](Stepping => <>(top.mode = "top"))
+PlanCompletes == <>[](TopCanAct /\ run.p = 0)
 Emit == Done => PrintT(<<"EMIT", ToJson([script |-> script, log |-> log, final |-> FinalState])>>)
 
 (* ---------------- property monitors over the observable log ---------------- *)
